@@ -368,6 +368,31 @@ class VecEval:
                 self.stmt(body)
                 val = val + 1
             return
+        elif k in ("CXXForRangeStmt", "WhileStmt"):
+            # a loop over a container / under a condition whose body only writes scalar locals: after it those locals hold values the
+            # evaluation does not know (a fresh symbol each, so a later condition on one of them is undecided and both ways are followed)
+            written = {}
+            for y in self.F.walk(s):
+                ky = y.get("k")
+                if ky in ("ReturnStmt", "BreakStmt", "GotoStmt", "CXXThrowExpr", "CXXMemberCallExpr", "CXXOperatorCallExpr") and not (
+                        ky == "CXXOperatorCallExpr" and y.get("op") in ("[]", "*", "!=", "==", "++")) and not (
+                        ky == "CXXMemberCallExpr" and y.get("callee") and (self.P.d(y["callee"]).get("const") or self.P.d(y["callee"]).get("n") in ("begin", "end", "size"))):
+                    raise AnalysisBroken("statement kind %s (a loop with %s inside)" % (k, ky))
+                tgt = None
+                if ky in ("BinaryOperator", "CompoundAssignOperator") and y.get("op") in norm.ASSIGN_OPS and y.get("c"):
+                    tgt = sc(y["c"][0])
+                elif ky == "UnaryOperator" and y.get("op") in ("++", "--") and y.get("c"):
+                    tgt = sc(y["c"][0])
+                if tgt is not None:
+                    if tgt.get("k") != "DeclRefExpr" or self.P.d(tgt["r"]).get("storage") != "local" or not norm.is_arith((self.P.d(tgt["r"]).get("t") or tgt.get("t") or "").replace("const ", "")) \
+                            or isinstance(self.env.get(tgt["r"]), tuple):
+                        raise AnalysisBroken("statement kind %s (a loop that writes %s)" % (k, norm.render(self.P, tgt)[:40]))
+                    written[tgt["r"]] = tgt.get("n") or "v"
+            self._havoc = getattr(self, "_havoc", 0)
+            for key_, nm_ in written.items():
+                self._havoc += 1
+                self.env[key_] = sp.Symbol("after_loop_%s_%d" % (nm_, self._havoc))
+            return
         elif k in ("NullStmt",):
             return
         elif k == "DoStmt" and not any(y.get("k") in ("BinaryOperator", "CompoundAssignOperator", "CXXOperatorCallExpr", "CallExpr", "CXXMemberCallExpr", "ReturnStmt")
